@@ -680,13 +680,21 @@ def replay(ob, model):
 
         def cs(l):
             return str((sum(int(c) for c in l[:68] if c.isdigit()) + l[:68].count("-")) % 10)
-        good = len(a) == 69 and len(b) == 69 and a.startswith("1 ") and b.startswith("2 ") and a[68] == cs(a) and b[68] == cs(b)
-        try:
-            Tle._check_validity([a, b])
-            ok = True
-        except TleParseError:
-            ok = False
-        return {"reproduced": ok != good, "signature": "TLE validity check", "detail": f"{a!r} / {b!r}: accepted={ok}, should be {good}"}
+        # the symbolic side replaces the checksum by an arbitrary digit: besides the model's own characters, try the realisations
+        # in which column 69 of a line is the true checksum of that line
+        tried = []
+        fix = lambda l: (l[:68] + cs(l) + l[69:]) if len(l) >= 69 else l          # column 69 := true checksum
+        for a_, b_ in ((a, b), (fix(a), b), (a, fix(b)), (fix(a), fix(b))):
+            good = len(a_) == 69 and len(b_) == 69 and a_.startswith("1 ") and b_.startswith("2 ") and a_[68] == cs(a_) and b_[68] == cs(b_)
+            try:
+                Tle._check_validity([a_, b_])
+                ok = True
+            except TleParseError:
+                ok = False
+            tried.append(f"{a_!r} / {b_!r}: accepted={ok}, should be {good}")
+            if ok != good:
+                return {"reproduced": True, "signature": "TLE validity check", "detail": tried[-1], "inputs": {"line1": a_, "line2": b_}}
+        return {"reproduced": False, "signature": "TLE validity check", "detail": "; ".join(tried)}
     if kind == "from_string":
         hist = rp["hist"]
         name2line = {v[0]: v[1] for v in KINDS.values()}
